@@ -180,6 +180,20 @@ class Item:
         return "I%s" % (self.tag,)
 
 
+class Opaque:
+    """Item that supports nothing but identity (no ordering, default equality): usable only
+    through a key function."""
+
+    __slots__ = ("key", "tag", "__weakref__")
+
+    def __init__(self, key, tag):
+        self.key = key
+        self.tag = tag
+
+    def __repr__(self):
+        return "O%s" % (self.tag,)
+
+
 class Term:
     """Inert result of an uninterpreted user function (free term algebra)."""
 
@@ -211,7 +225,7 @@ def same(x, y):
         return x.f == y.f and same(x.args, y.args)
     if tx is int or tx is bool or tx is str or tx is float or x is None:
         return x == y
-    if tx is Item:
+    if tx is Item or tx is Opaque:
         return False  # distinct objects
     if isinstance(x, int) and isinstance(y, int):
         return x == y
